@@ -265,6 +265,7 @@ def judgeJSON (endStream : Bool) (kind : String) (impl : Json) : Verdict :=
   let genHolds : Bool × String :=
     if kind == "own" then (fb.isEmpty, s!"feedback on a well-formed document written by the repository's own server: {fb}")
     else if kind == "anyform" then (fb.isEmpty, s!"feedback on a well-formed document whose debug data is the detail's message in google.protobuf.Any form (only the text after the last slash of a type URL names the type): {fb}")
+    else if kind == "freeform" then (fb.isEmpty, s!"feedback on a well-formed document: free-form JSON in a detail's debug member in which every object has distinct keys (a key is repeated only when ONE object has it twice, whatever the key strings look like): {fb}")
     else if kind.startsWith "mut:" then (!fb.isEmpty, s!"injected malformation {kind} not reported")
     else (true, "")
   if !bool (field impl "tokenized") then
